@@ -143,7 +143,7 @@ def run(M, c):
                "replace": (p.replace(microsecond=1), P.DateTime), "combine": (P.DateTime.combine(p.date(), p.time()), P.DateTime),
                "fromtimestamp": (P.DateTime.fromtimestamp(c["u"] // US, P.UTC), P.DateTime),
                "fromordinal": (P.DateTime.fromordinal(p.toordinal()), P.DateTime),
-               "strptime": (P.DateTime.strptime(t1.strftime("%Y-%m-%d %H:%M:%S"), "%Y-%m-%d %H:%M:%S"), P.DateTime),
+               "strptime": (P.DateTime.strptime("%04d-%02d-%02d %02d:%02d:%02d" % fields(t1)[:6], "%Y-%m-%d %H:%M:%S"), P.DateTime),
                "date.replace": (p.date().replace(day=1), P.Date), "time.replace": (p.time().replace(second=1), P.Time)}
         for n, (v, ty) in res.items():
             M.check("types", type(v) is ty, f"C11/type:{n}", f"{n} does not return the pendulum type", got=type(v).__name__, **ctx)
